@@ -4,8 +4,10 @@ from harness.common import bud
 from harness.props import c01, c05
 
 PROP = "C16"
-MODULES = ["CassisModel.Properties.C01", "CassisModel.Properties.C02"]
+MODULES = ["CassisModel.Properties.C16Chain", "CassisModel.Properties.C01", "CassisModel.Properties.C02", "CassisModel.Properties.C04", "CassisModel.Properties.C13"]
 THEOREMS = [
+    "Cassis.chain_xmi_json_flat",
+    "Cassis.chain_json_xmi_flat",
     "Cassis.Xmi.saveXmi_shape",
     "Cassis.Json.saveJson_shape",
     "Cassis.Xmi.parseInts_showInts",
@@ -15,8 +17,8 @@ THEOREMS = [
     "Cassis.TS.merge_consistent",
 ]
 ASSUMPTIONS = [
-    "C16 would be a corollary of the end-to-end round-trip statements of both codecs, which are NOT proved; the theorems listed are the per-kind and document-shape lemmas of the two codec models (C01/C02). The conversion chains themselves are checked per run on the implementation (oracle) and against the same chains executed by the Lean model (correspondence) (partial)",
-    "restricted to what both formats can express: text sofas, no null elements in FSArrays (finding X3), no empty inline string lists (X5)",
+    "proved end to end on the flat fragment (primitive features, plain references, sofa references; any graph, any views, astral text): both conversion chains succeed and the CAS at the end has the same views, members, structures, ids, types and feature contents as the CAS written first (chain_xmi_json_flat, chain_json_xmi_flat; original type system supplied at every step); for CASes with array and list features and for the JSON-embedded type system variant the chains are checked per run on the implementation (oracle) and against the same chains executed by the Lean model (partial)",
+    "restricted to what both formats can express: text sofas, no null elements in FSArrays (XMI cannot write them), no empty inline string lists",
 ]
 
 
